@@ -275,10 +275,13 @@ _AUDIT_RULE = ("mixed histories (constructions, apply operations across forests,
                "and distinct canonical diagrams")
 
 PROPS["C02"] = dict(
-    gens=[("hist", gen.gen_hist, 1.0)], quick=40, thorough=500, rule=_AUDIT_RULE,
+    gens=[("hist", gen.gen_hist, 1.0)], quick=40, thorough=500, rule=_AUDIT_RULE, uses_gen=True,
     level_text="Proved: mk/apply/build/of_fun only ever return diagrams that satisfy the reduction-rule clauses "
-               "(reducedb) for all inputs; the store-level clauses are the executable Gallina audit (15 clauses) "
-               "run on the implementation's own node dump at every quiescent point of generated histories.",
+               "(reducedb) for all inputs; the store-level clauses are the executable Gallina audit (20 clauses) "
+               "run on the implementation's own node dump at every quiescent point of generated histories; the "
+               "audit is proved sound (an audited store is reduced and canonical, MT and EV+); the level order it "
+               "uses is proved equal to isLevelAbove/downLevel/upLevel/topLevel as regenerated from "
+               "src/forest_levels.h and src/defines.h on every run.",
     level_note=_MODELLED + "The audit is evaluated on dumps of the real node store; in-place reordering is "
                "covered by C13's scripts. Soundness of the audit w.r.t. the tree-level predicate: see DESIGN.")
 PROPS["C06"] = dict(
